@@ -144,7 +144,7 @@ Section Keystore.
     length nonce = 12%nat -> N.of_nat (length msg) <= max_plain ->
     encrypt cipher pw nonce msg = Ok (nonce ++ seal_body (cipher (key_of pw)) nonce msg).
   Proof.
-    intros Hn Hm. unfold encrypt, seal. rewrite Hn. cbn [Nat.eqb negb].
+    intros Hn Hm. unfold encrypt, encrypt_k, seal. rewrite Hn. cbn [Nat.eqb negb].
     destruct (N.ltb_spec max_plain (N.of_nat (length msg))); [lia | reflexivity].
   Qed.
 
@@ -153,7 +153,7 @@ Section Keystore.
     length nonce = 12%nat /\ N.of_nat (length msg) <= max_plain /\
     ct = nonce ++ seal_body (cipher (key_of pw)) nonce msg.
   Proof.
-    unfold encrypt, seal.
+    unfold encrypt, encrypt_k, seal.
     destruct (Nat.eqb_spec (length nonce) 12) as [Hn|]; cbn [negb]; [|discriminate].
     destruct (N.ltb_spec max_plain (N.of_nat (length msg))) as [|Hm]; [discriminate|].
     intro H; injection H as <-. auto.
@@ -174,7 +174,7 @@ Section Keystore.
     encrypt cipher pw nonce msg = Ok ct -> decrypt cipher pw ct = Ok msg.
   Proof.
     intro H. apply encrypt_inv in H as (Hn & Hm & ->).
-    unfold decrypt. destruct (split_nonce nonce (seal_body (cipher (key_of pw)) nonce msg) Hn) as (-> & -> & ->).
+    unfold decrypt, decrypt_k. destruct (split_nonce nonce (seal_body (cipher (key_of pw)) nonce msg) Hn) as (-> & -> & ->).
     now apply open_seal_body.
   Qed.
 
@@ -191,14 +191,14 @@ Section Keystore.
   Lemma decrypt_total pw data :
     decrypt cipher pw data <> Panic /\ decrypt cipher pw data <> OutOfFuel.
   Proof.
-    unfold decrypt. destruct (length data <? 12)%nat eqn:H; [split; discriminate|].
+    unfold decrypt, decrypt_k. destruct (length data <? 12)%nat eqn:H; [split; discriminate|].
     apply open_never_panics. now apply firstn12_length.
   Qed.
 
   Lemma decrypt_short pw data :
     (length data < 28)%nat -> exists c, decrypt cipher pw data = Err c.
   Proof.
-    intro H. unfold decrypt. destruct (length data <? 12)%nat eqn:H12; [eauto|].
+    intro H. unfold decrypt, decrypt_k. destruct (length data <? 12)%nat eqn:H12; [eauto|].
     exists 1%nat. apply open_short; [now apply firstn12_length|].
     rewrite skipn_length. lia.
   Qed.
@@ -206,7 +206,7 @@ Section Keystore.
   Lemma decrypt_ok_genuine pw data p :
     decrypt cipher pw data = Ok p -> encrypt cipher pw (firstn 12 data) p = Ok data.
   Proof.
-    unfold decrypt. destruct (length data <? 12)%nat eqn:H12; [discriminate|].
+    unfold decrypt, decrypt_k. destruct (length data <? 12)%nat eqn:H12; [discriminate|].
     intro H. apply open_ok_genuine in H as (Hn & Hp & Hs).
     rewrite (encrypt_ok _ _ _ Hn Hp), Hs, firstn_skipn. reflexivity.
   Qed.
@@ -223,7 +223,7 @@ Section Keystore.
     rewrite E1 in *.
     destruct (split_tail (nonce ++ c) (tag K nonce c) (tag_length _ _ _)) as [F S].
     rewrite F. rewrite S in Hne. rewrite <- app_assoc.
-    unfold decrypt. destruct (split_nonce nonce (c ++ t') Hn) as (-> & -> & ->).
+    unfold decrypt, decrypt_k. destruct (split_nonce nonce (c ++ t') Hn) as (-> & -> & ->).
     apply open_wrong_tag; auto.
   Qed.
 
@@ -304,7 +304,7 @@ Section Keystore.
     encrypt_private_key cipher pw nonce k = Ok ct ->
     decrypt_private_key cipher pw ct s = Ok k.
   Proof.
-    intros Hv H. unfold decrypt_private_key, encrypt_private_key in *.
+    intros Hv H. unfold decrypt_private_key, decrypt_private_key_k, encrypt_private_key in *. fold (decrypt cipher pw ct).
     rewrite (decrypt_encrypt _ _ _ _ H). cbn [obind]. now apply decode_valid.
   Qed.
 
@@ -323,7 +323,7 @@ Section Keystore.
   Lemma decrypt_prefix_agrees pw data :
     (12 <= length data)%nat -> decrypt_prefix cipher pw data = decrypt cipher pw data.
   Proof.
-    intro H. unfold decrypt_prefix, decrypt.
+    intro H. unfold decrypt_prefix, decrypt_prefix_k, decrypt, decrypt_k.
     destruct (Nat.ltb_spec (length data) 12); [lia | reflexivity].
   Qed.
 End Keystore.
